@@ -389,13 +389,15 @@ def c08f(chk):
     if rs.ok:
         f = rs.fn
         e = rs.arm.get("Error")
-        r = f.reachable_from(e)
+        # (the arm may hand the error back as a value first - `Error(e) => return Err(e)` in a helper, `Err(e) => return ReadStatus::Error(..)`
+        # in read_site: edges of the second match that need another variant than this arm built are not paths of this arm)
+        r = an.reachable_with_edges_removed(f, e, set(), an.infeasible_edges_from(f, e, None))
         constructs = any(s["k"] == "assign" and s["rv"]["k"] == "aggregate" and s["rv"].get("adt") == RC.READSTATUS and s["rv"]["variant"] == "Error" for b in r for s in f.stmts(b))
         back = rs.header in r
         reaches_read = any(s["k"] == "assign" and s["rv"]["k"] == "aggregate" and s["rv"].get("adt") == RC.READSTATUS and s["rv"]["variant"] == "Read" for b in r for s in f.stmts(b))
         chk.ob("C08.f", "read_site/Error-arm-returns-ReadStatus::Error", constructs and not back and not reaches_read, f.loc(e),
                "a ploidy error in a selected sample must end read_site with ReadStatus::Error (constructs=%s, continues loop=%s, reaches Read=%s)" % (constructs, back, reaches_read))
-        chk.ob("C08.f", "read_site/Error-arm-under-selection", an.dominated_by_edge(f, rs.sel_sw, rs.sel_some, e), f.loc(e), "only selected samples can raise the error")
+        chk.ob("C08.f", "read_site/Error-arm-under-selection", rs.selected(e), f.loc(e), "only selected samples can raise the error")
         RC.sample_loop_exits(chk, rs, "C08.f")
     f = chk.fn(RC.RUNNER_RUN)
     if f is None:
